@@ -50,3 +50,66 @@ class split_label_string:
             ),
         ],
     }
+
+
+@contract("mxlpy.label_map:_assign_compound_labels")
+class assign_compound_labels:
+    # isotopomer names: base name, "__" and the compound's piece of the label string;
+    # a compound without label positions keeps its base name
+    requires = lambda base_compounds, label_suffixes: len(label_suffixes) >= len(base_compounds)
+    ensures = lambda base_compounds, label_suffixes, result: [
+        len(result) == len(base_compounds),
+        fresh(result),
+        forall(
+            lambda k: implies(
+                0 <= k and k < len(base_compounds),
+                at(result, k)
+                == (
+                    at(base_compounds, k) + "__" + at(label_suffixes, k)
+                    if at(label_suffixes, k) != ""
+                    else at(base_compounds, k)
+                ),
+            ),
+            "int",
+        ),
+        unchanged(base_compounds),
+        unchanged(label_suffixes),
+    ]
+    modifies = lambda base_compounds, label_suffixes: []
+    loops = {
+        1: lambda base_compounds, label_suffixes, new_compounds: [
+            len(new_compounds) == _i,
+            fresh(new_compounds),
+            unchanged(base_compounds),
+            unchanged(label_suffixes),
+            forall(
+                lambda k: implies(
+                    0 <= k and k < _i,
+                    at(new_compounds, k)
+                    == (
+                        at(base_compounds, k) + "__" + at(label_suffixes, k)
+                        if at(label_suffixes, k) != ""
+                        else at(base_compounds, k)
+                    ),
+                ),
+                "int",
+            ),
+        ],
+    }
+
+
+@contract("mxlpy.label_map:_get_labels_per_variable")
+class get_labels_per_variable:
+    # number of label positions of every listed compound; 0 for compounds without labels
+    ensures = lambda label_variables, compounds, result: [
+        len(result) == len(compounds),
+        forall(
+            lambda k: implies(
+                0 <= k and k < len(compounds),
+                at(result, k)
+                == (label_variables[at(compounds, k)] if at(compounds, k) in label_variables else 0),
+            ),
+            "int",
+        ),
+    ]
+    modifies = lambda label_variables, compounds: []
